@@ -433,6 +433,17 @@ def expand(limit, exp, hist: str, variants=VARIANTS, recvs=None) -> list[str]:
 A, B, C, D = "i1", "i2", "i3", "i4"
 
 
+
+def extra_obligations():
+    """`_SyncCache.__call__/__method_call__` and `_AsyncCache.__call__/__method_call__` regenerated from /repo's caching.py as
+    MiniPy terms (all four cache entry points here); Lean re-checks that each, run on the image of a model table with the clock, the computed key and
+    the function's behaviour as parameters, ends in the image of `Cache.call` with its answer: hit = the stored product and
+    most recent afterwards, an entry past its expiry dropped, a miss invokes exactly once, the oldest entry evicted beyond `limit`"""
+    from harness import core, regen
+
+    return [e for e in regen.check("cache", core.REPO, core.LEAN)]
+
+
 def corpus():
     cs: list[str] = []
     # receiver identity: ==-equal, hash-equal but distinct receivers must not share an entry (pinned defect)
